@@ -154,7 +154,143 @@ def h_stale_buffers(ctx, case):
     return 'ok'
 
 
+def _rm_setup(case, mode):
+    from harness import refmarkers as RM
+    RM.setup(case, mode)
+
+
+def _digest(path):
+    import hashlib
+    return hashlib.md5(open(path, 'rb').read()).hexdigest()
+
+
+def h_marker_history(ctx, case):
+    """the reference-marker stage run into an output location where an
+    earlier run (successful on other statistics, or dead while writing)
+    left its files: it succeeds, yields the tables of a run into a fresh
+    location, leaves the statistics file untouched and the scratch
+    directory empty"""
+    from harness import refmarkers as RM
+    stats_digest = {}
+    real_build = RM.build_stats
+
+    def build(path, sizes):
+        r = real_build(path, sizes)
+        if 'path' not in stats_digest:
+            stats_digest['before'] = _digest(path)
+            stats_digest['path'] = path
+        return r
+    RM.build_stats = build
+    try:
+        res = RM.run_stage(ctx, case, faults=False)
+    finally:
+        RM.build_stats = real_build
+    ctx.note('left at output', res['prior'] + '/'
+             + res.get('prior_mask', '-'))
+    if res['raised'] is not None:
+        ctx.exception(res['raised'], 'files left at the output location '
+                      f"by an earlier run ({res['prior']}/"
+                      f"{res.get('prior_mask', '-')}) make the run fail: "
+                      + str(res['raised'])[:80])
+        return 'EXC'
+    ctx.reach('ran')
+    RM.check_tables(ctx, res)
+    ctx.check(_digest(stats_digest['path']) == stats_digest['before'],
+              'the statistics file is not modified')
+    want = {'reference_markers.h5', 'reference_markers_1worker.h5'}
+    if res['route'] == 'mask':
+        want |= {'reference_markers.h5.p_value_mask.h5',
+                 'reference_markers_1worker.h5.p_value_mask.h5'}
+    extra = [n for n in os.listdir(os.path.dirname(res['out']))
+             if n not in want]
+    ctx.check(extra == [], 'files are created only at the requested '
+              f'output locations; extra={extra[:3]}')
+    return 'ok'
+
+
+def _ss_setup(case, mode):
+    from harness import selstage as SS
+    SS.setup(case, mode)
+    import cell_type_mapper.type_assignment.marker_cache_v2 as MC
+    from harness.common import patch
+    patch(MC, 'print', lambda *a, **k: None)
+
+
+def _strip(lookup):
+    return {k: sorted(v) for k, v in lookup.items()
+            if k not in ('log', 'metadata')}
+
+
+def h_lookup_history(ctx, case):
+    """query-marker stage: the statistics file named by the
+    reference-marker file is the one consulted whenever it exists; a
+    same-named file next to the marker file (left by an earlier run) is
+    consulted only when the named one is gone and the search was asked
+    for"""
+    from harness import selstage as SS
+    res = SS.run_lookup(ctx, case)
+    usable = res['at_recorded'] or (res['search']
+                                    and res['neighbour'] != 'nothing')
+    if not usable:
+        ctx.reach('no statistics file')
+        ctx.check(isinstance(res['raised'], FileNotFoundError),
+                  'a missing statistics file is reported')
+        return 'missing'
+    if res['raised'] is not None:
+        ctx.exception(res['raised'], 'query-marker stage failed: '
+                      + str(res['raised'])[:80])
+        return 'EXC'
+    if res['at_recorded'] or res['neighbour'] == 'right':
+        ctx.reach('right statistics')
+        ctx.check(_strip(res['out']) == _strip(res['base']),
+                  'markers do not depend on a same-named statistics file '
+                  'an earlier run left next to the marker file '
+                  f"(neighbour={res['neighbour']}, search={res['search']})")
+    else:
+        ctx.reach('moved statistics')
+    left = os.listdir(res['scratch'])
+    ctx.check(left == [], f'scratch directory empty afterwards: {left[:3]}')
+    return 'ok'
+
+
 HARNESSES = [
+    Harness('query_marker_stage_history', h_lookup_history,
+            setup=_ss_setup, cases=[{}], thorough_cases=[{'K': 1}],
+            funcs=['marker_cache_v2.create_marker_gene_lookup_from_ref_list',
+                   'create_marker_gene_lookup_from_mapping',
+                   'config_utils.patch_child_to_parent',
+                   'precompute_utils.run_leaf_census',
+                   'create_raw_marker_gene_lookup',
+                   'selection_pipeline.select_all_markers'],
+            stubs=['multiprocessing -> scheduler model'],
+            bounds='one reference-marker file (real marker stage, 5 '
+                   'clusters / 6 genes); statistics file present or absent '
+                   'at its recorded path; next to the marker file nothing, '
+                   'a copy of it, or a same-named file of another '
+                   'taxonomy; search on/off; 1-2 workers',
+            expect_reach=['no statistics file', 'right statistics',
+                          'moved statistics']),
+    Harness('reference_marker_stage_history', h_marker_history,
+            setup=_rm_setup,
+            cases=[{'vary': [], 'history': True, 'fixed': True},
+                   {'vary': [], 'history': True, 'fixed': True,
+                    'route': 'mask'}],
+            thorough_cases=[{'vary': ['c0'], 'history': True},
+                            {'vary': ['c0'], 'history': True,
+                             'route': 'mask'}],
+            funcs=['markers.find_markers_for_all_taxonomy_pairs',
+                   'p_value_mask.create_p_value_mask_file',
+                   '_prep_output_file', '_merge_masks',
+                   'p_value_markers.find_markers_for_all_taxonomy_pairs_'
+                   'from_p_mask'],
+            stubs=['multiprocessing -> scheduler model (real worker bodies '
+                   'on real files)'],
+            bounds='5 clusters / 6 genes; at the marker path and at the '
+                   'mask path an earlier run left nothing, a complete '
+                   'product made from other statistics, or a truncated '
+                   'file; 1-3 workers',
+            outside='two runs racing on the same output path',
+            expect_reach=['ran'], split=16),
     Harness('mapping_scratch_and_inputs', h_scratch, setup=SC.setup,
             cases=[{}],
             funcs=['from_specified_markers.run_mapping', '_run_mapping',
